@@ -28,6 +28,7 @@ def run(ctx: Ctx) -> None:
     rule_wrappers(ctx)  # the mixed-stabilizer gate methods are what a noisy simulation runs; they must agree with the pure ones
     from ..rules import memo as _memo
     _memo.rule_memo_sound(ctx, ['graphiq/noise/noise_models.py', 'graphiq/backends/compiler_base.py'])
+    _memo.rule_falsy_zero(ctx, ['graphiq/noise/noise_models.py', 'graphiq/backends/compiler_base.py'])
     repo = ctx.repo
     effects.rule_backend_cover(ctx)
     effects.rule_noise_off(ctx)
